@@ -47,6 +47,26 @@ int clock_gettime(clockid_t id, struct timespec *ts)
 	return 0;
 }
 
+/* /proc/self/statm as the read trigger (f15@read=proc/statm -> save_proc_statm) sees it: the k-th read gives
+   "100+7k 50+3k 20+k", so that the payload of the EVENT records is known to the driver */
+#include <dlfcn.h>
+static int statm_reads;
+static FILE *fake_fopen(const char *path, const char *mode, const char *sym)
+{
+	static char text[64];
+	static FILE *(*real)(const char *, const char *);
+	if (!real)
+		real = dlsym(RTLD_NEXT, sym);
+	if (path && !strcmp(path, "/proc/self/statm") && fake_on) {
+		int k = statm_reads++;
+		snprintf(text, sizeof(text), "%d %d %d 0 0 0 0\n", 100 + 7 * k, 50 + 3 * k, 20 + k);
+		return fmemopen(text, strlen(text), "r");
+	}
+	return real(path, mode);
+}
+FILE *fopen(const char *path, const char *mode) { return fake_fopen(path, mode, "fopen"); }
+FILE *fopen64(const char *path, const char *mode) { return fake_fopen(path, mode, "fopen64"); }
+
 /* 32 functions at 256-byte spacing, real ELF symbols f0..f31 (as in mc_harness.c) */
 #define FDEF(n, fill)                                                                              \
 	asm(".text\n .globl f" #n "\n .type f" #n ",@function\n .p2align 8\n f" #n ":\n .fill " #fill \
